@@ -336,6 +336,9 @@ FEATURES = {
                             "lcd002.animate(\"bounce\", 1, \"yo\", speed_ms=50, loop=True)\n"
                             "while True:\n    mon.write(btn1.is_pressed())\n    mon.write(btn01.is_pressed())\n    mon.write(btn001.is_pressed())\n    mon.write(btn0001.is_pressed())\n"
                             "    mon.write(Btn1.is_pressed())\n    mon.write(btn_1.is_pressed())\n    sleep(20)\n",
+    # names first bound inside try / except clauses (hoisted, the clauses are rewritten) in the prologue, a helper and the main loop
+    "feat-try-hoist": _FH + "try:\n    ta = 1\n    tb = ta + 1\nexcept Exception as e1:\n    ta = 3\n    tc = 4\ndef guarded(q):\n    try:\n        hv = q * 2\n    except Exception as e2:\n        hv = 0\n        hw = 1\n    return hv\n"
+                      "mon.write(guarded(ta))\nwhile True:\n    try:\n        lv = ta + tb\n        mon.write(lv)\n    except Exception as e3:\n        lw = 5\n        mon.write(lw)\n    sleep(10)\n",
     "merge-many-devices": _FH + "la = Led(3)\nlb = Led(4)\nlc = Led(5)\nsa = Servo(9)\nsb = Servo(10)\nra = RGBLed(6, 7, 8)\nba = Button(11)\nbb = Button(12)\nbz = Buzzer(2)\nwhile True:\n    la.toggle()\n    lb.on()\n    lc.off()\n    sa.write(10)\n    sb.write(20)\n    ra.set_color(1, 2, 3)\n    bz.beep(440, 5, 5, 2)\n    mon.write(ba.is_pressed())\n    mon.write(bb.is_pressed())\n",
 }
 EXPECT_REJECT = {k for k in FEATURES if k.startswith("rej-")}
@@ -343,7 +346,7 @@ FEATURE_GROUPS = [["feat-swap-loop", "rej-swap-then-break", "feat-swap-for"], ["
                   ["feat-swap-many", "rej-swap-loop-then-align", "feat-swap-loop"], ["feat-swap-for", "rej-conflict-after-defs", "feat-swap-fn"],
                   ["merge-ret-lists", "merge-ret-num", "rej-ret-str-num"], ["merge-list-elems", "merge-ternary", "merge-call-sites"],
                   ["merge-many-devices", "merge-ret-lists", "rej-swap-then-break"],
-                  ["feat-builtin-const", "feat-loop-promotions", "feat-loop-promotions-rev"], ["feat-lookalike-names", "merge-many-devices", "feat-lookalike-names"], ["feat-builtin-const", "merge-ternary", "feat-swap-loop"]]
+                  ["feat-builtin-const", "feat-loop-promotions", "feat-loop-promotions-rev"], ["feat-lookalike-names", "merge-many-devices", "feat-lookalike-names"], ["feat-try-hoist", "feat-swap-loop", "feat-loop-promotions"], ["feat-builtin-const", "merge-ternary", "feat-swap-loop"]]
 
 
 def _twin(src: str, rng: random.Random) -> str | None:
@@ -478,7 +481,7 @@ def digests(text: str, hoisted: set) -> dict:
 # --------------------------------------------------------------------------------------------------------------
 def child_main() -> int:
     """stdin: {"pid":…, "scripts": {id: {"src":…, "hoisted":[…]}}, "plan": [[op, sid]…] | null, "threads": [[[op,sid]…], …] | null}
-    stdout: NDJSON events.  ops: t = parse+emit, p = parse (kept), e = emit of the kept program."""
+    stdout: NDJSON events.  ops: t = parse+emit, p = parse (kept), e = emit of the kept program (handed back), E = emit of the kept program (still kept)."""
     import threading
     here = Path(__file__).resolve().parent.parent
     sys.path.insert(0, str(here))
@@ -521,15 +524,15 @@ def child_main() -> int:
             kept[(thr, sid)] = (ok, val)
             log({"e": "parse", "s": sid, "thr": thr})
             return
-        if op == "e":
-            ok, val = kept.pop((thr, sid))
+        if op in ("e", "E"):              # E: the Program stays with the caller and may be emitted again
+            ok, val = kept.pop((thr, sid)) if op == "e" else kept[(thr, sid)]
             if ok:
                 ok, val = outcome(lambda: emit(val))
         else:
             ok, val = outcome(lambda: emit(parse(sc["src"])))
         text = val if ok else val
         dg = digests(text, set(sc["hoisted"]))
-        log({"e": "emit" if op == "e" else "transpile", "s": sid, "thr": thr, "acc": bool(ok), **dg,
+        log({"e": "emit" if op in ("e", "E") else "transpile", "keep": op == "E", "s": sid, "thr": thr, "acc": bool(ok), **dg,
              **({} if ok else {"out": val[:200]})})
         now = modstate.snapshot()
         same = now == base
